@@ -534,6 +534,26 @@ def _c14_chunk(arg):
                                {'count_new': soup.count(new), 'count_old': soup.count(old)},
                                {'count_new': n_new + 1, 'count_old': n_old - 1},
                                opts={'old': old, 'new': new}))
+            # every form of query that selects this node must follow the rename:
+            # the full expression text, and for an environment its begin
+            # marker with and without the arguments
+            # (a query is read as a full expression only when it has a group)
+            qs_new = [str(node)] if ('{' in str(node) or '[' in str(node)) else []
+            qs_old = []
+            if isinstance(node.expr, D.TexNamedEnv):
+                a = str(node.expr.args)
+                qs_new += ['\\begin{%s}' % new, '\\begin{%s}%s' % (new, a)]
+                qs_old += ['\\begin{%s}' % old, '\\begin{%s}%s' % (old, a)]
+            for q in qs_new:
+                if not any(x.expr is node.expr for x in soup.find_all(q)):
+                    r.fail(Failure('C14', 'rename-not-visible-to-search', src, 'not found', 'found',
+                                   opts={'old': old, 'new': new, 'query': q}))
+                    break
+            for q in qs_old:
+                if old != new and any(x.expr is node.expr for x in soup.find_all(q)):
+                    r.fail(Failure('C14', 'rename-not-visible-to-search', src, 'still found under the old name',
+                                   'not found', opts={'old': old, 'new': new, 'query': q}))
+                    break
             if not special_old and old not in impl._pkg.reader.SIGNATURES \
                     and old not in impl._pkg.tokens.SPECIAL_COMMANDS \
                     and not (node.expr.args == [] and re.match(r'[A-Za-z*]', src[spans[0][1]:spans[0][1] + 1] or ' ')):
